@@ -1,6 +1,6 @@
 package orda
 
-// BOUNDED stand-in (not a proof) for the export / import round trip of List, Map and Counter snapshots (C10):
+// BOUNDED stand-in (not a proof) for the export / import round trip of List, Map, Counter and Document snapshots (C10):
 // MarshalJSON / UnmarshalJSON of the snapshots and GetMetaAndSnapshot / SetMetaAndSnapshot. The clause "a restored
 // instance is indistinguishable from the original" speaks about encoding/json applied to the exported structure; no
 // contract within reach states what that library does, so the REAL code is run: every history of at most
@@ -18,6 +18,7 @@ import (
 	"io"
 	"os"
 	"reflect"
+	"sort"
 	"strconv"
 	"strings"
 	"testing"
@@ -44,6 +45,7 @@ type vsRep struct {
 	list List
 	m    Map
 	c    Counter
+	d    Document
 	w    *datatypes.WiredDatatype
 	sent int
 }
@@ -70,6 +72,14 @@ func vsNew(kind string, i int) *vsRep {
 			panic(err)
 		}
 		r.m, r.w, r.dt = m, m.(*ordaMap).WiredDatatype, m.(*ordaMap)
+	case "doc":
+		base := datatypes.NewBaseDatatype("bounded", model.TypeOfDatatype_DOCUMENT, ctx, model.StateOfDatatype_DUE_TO_CREATE)
+		vsQuiet(base.L())
+		d, err := newDocument(base, testonly.NewTestWire(false), nil)
+		if err != nil {
+			panic(err)
+		}
+		r.d, r.w, r.dt = d, d.(*document).WiredDatatype, d.(*document)
 	default:
 		base := datatypes.NewBaseDatatype("bounded", model.TypeOfDatatype_COUNTER, ctx, model.StateOfDatatype_DUE_TO_CREATE)
 		vsQuiet(base.L())
@@ -90,6 +100,8 @@ func (r *vsRep) view() string {
 		v, size = r.list.ToJSON(), r.list.Size()
 	case "map":
 		v, size = r.m.ToJSON(), r.m.Size()
+	case "doc":
+		v = r.d.GetValue()
 	default:
 		v = r.c.Get()
 	}
@@ -170,6 +182,55 @@ func (w *vsWorld) local(r *vsRep, name string, val string) (applicable bool, res
 			v, err := r.m.Remove("k2")
 			return true, fmt.Sprint(v, err)
 		}
+	case "doc":
+		arr, _ := r.d.GetFromObject("arr")
+		n := 0
+		if arr != nil {
+			if vs, ok := arr.GetValue().([]interface{}); ok {
+				n = len(vs)
+			}
+		}
+		switch name {
+		case "putK":
+			_, err := r.d.PutToObject("k", val)
+			return true, fmt.Sprint(err)
+		case "putArr":
+			_, err := r.d.PutToObject("arr", []interface{}{val, val + "b"})
+			return true, fmt.Sprint(err)
+		case "putObj":
+			_, err := r.d.PutToObject("obj", map[string]interface{}{"a": val, "b": []interface{}{val}})
+			return true, fmt.Sprint(err)
+		case "delObj":
+			if o, _ := r.d.GetFromObject("obj"); o == nil {
+				return false, ""
+			}
+			_, err := r.d.DeleteInObject("obj")
+			return true, fmt.Sprint(err)
+		case "arrIns0":
+			if arr == nil {
+				return false, ""
+			}
+			_, err := arr.InsertToArray(0, val)
+			return true, fmt.Sprint(err)
+		case "arrInsEnd":
+			if arr == nil {
+				return false, ""
+			}
+			_, err := arr.InsertToArray(n, val)
+			return true, fmt.Sprint(err)
+		case "arrDelLast":
+			if arr == nil || n == 0 {
+				return false, ""
+			}
+			_, err := arr.DeleteInArray(n - 1)
+			return true, fmt.Sprint(err)
+		case "arrUpd0":
+			if arr == nil || n == 0 {
+				return false, ""
+			}
+			_, err := arr.UpdateManyInArray(0, val)
+			return true, fmt.Sprint(err)
+		}
 	default:
 		switch name {
 		case "inc1":
@@ -187,6 +248,7 @@ var vsLocalSteps = map[string][]string{
 	"list":    {"ins0", "insEnd", "delFirst", "delLast", "upd0", "updLast"},
 	"map":     {"put1", "put2", "rem1", "rem2"},
 	"counter": {"inc1", "inc5"},
+	"doc":     {"putArr", "putObj", "putK", "delObj", "arrIns0", "arrInsEnd", "arrDelLast", "arrUpd0"},
 }
 
 func vsAlphabet(kind string) []string {
@@ -200,12 +262,31 @@ func vsAlphabet(kind string) []string {
 	return out
 }
 
+// vsNorm sorts the node table of a Document snapshot ("nm": written in the iteration order of a Go map, which is not
+// part of the snapshot's meaning) so that equivalent snapshots compare equal.
+func vsNorm(v interface{}) interface{} {
+	m, ok := v.(map[string]interface{})
+	if !ok {
+		return v
+	}
+	if nm, ok := m["nm"].([]interface{}); ok {
+		keyed := make([]string, len(nm))
+		for i, n := range nm {
+			b, _ := json.Marshal(n)
+			keyed[i] = string(b)
+		}
+		sort.Strings(keyed)
+		m["nm"] = keyed
+	}
+	return m
+}
+
 func vsSameJSON(x, y []byte) bool {
 	var a, b interface{}
 	if json.Unmarshal(x, &a) != nil || json.Unmarshal(y, &b) != nil {
 		return false
 	}
-	return reflect.DeepEqual(a, b)
+	return reflect.DeepEqual(vsNorm(a), vsNorm(b))
 }
 
 func vsRun(kind string, alpha []string, idx []int) (applicable bool, trace []string, failure error) {
@@ -319,7 +400,7 @@ func TestVerifBounded(t *testing.T) {
 	histories, steps, failures := 0, 0, 0
 	sample := ""
 	var bounds []string
-	for _, kind := range []string{"list", "map", "counter"} {
+	for _, kind := range []string{"list", "map", "counter", "doc"} {
 		alpha := vsAlphabet(kind)
 		bounds = append(bounds, fmt.Sprintf("%s: alphabet of %d steps", kind, len(alpha)))
 		for length := 0; length <= depth && failures == 0; length++ {
